@@ -601,6 +601,17 @@ func dialOnce(sc scenario, plan cancelPlan, o *outcome) {
 			d.Header = ws.HandshakeHeaderString("X-Pad: " + strings.Repeat("p", 300) + "\r\nX-More: " + strings.Repeat("q", 200) + "\r\n")
 			if sc.HTTPHeader {
 				d.Header = ws.HandshakeHeaderHTTP(http.Header{"X-Pad": []string{strings.Repeat("p", 300)}, "X-More": []string{strings.Repeat("q", 200)}})
+			} else if sc.SegMax == 7 {
+				// ... or the application's own writer function, which says
+				// where an error came from when it passes one on.
+				text := "X-Pad: " + strings.Repeat("p", 300) + "\r\nX-More: " + strings.Repeat("q", 200) + "\r\n"
+				d.Header = ws.HandshakeHeaderFunc(func(w io.Writer) (int64, error) {
+					n, err := io.WriteString(w, text)
+					if err != nil {
+						err = fmt.Errorf("writing the application's headers: %w", err)
+					}
+					return int64(n), err
+				})
 			}
 		}
 		d.NetDial = func(dctx context.Context, network, addr string) (net.Conn, error) {
